@@ -92,7 +92,8 @@ Record calls_core (d : dealer) : Prop := {
   cw_inv_timer : forall ikey inv t, cget (d_invs d) ikey = Some inv -> inv_timer inv = Some t ->
            t <= d_timergen d;
   cw_timer_inj : forall ikey inv t dl cid, cget (d_invs d) ikey = Some inv -> inv_timer inv = Some t ->
-           nget (d_timers d) t = Some (dl, cid) -> inv_call inv = cid
+           nget (d_timers d) t = Some (dl, cid) -> inv_call inv = cid;
+  cw_timerkeys : NoDup (map fst (d_timers d))
 }.
 
 Record calls_att (lookup : N -> option session) (d : dealer) : Prop := {
